@@ -113,6 +113,13 @@ func (fe *famEval) ofTemplate(v ssa.Value) tfam {
 			if i < len(x.Common().Args) {
 				return fe.ofTemplate(x.Common().Args[i])
 			}
+		case strings.HasPrefix(s, "nsparam:"):
+			// a constructor helper that is handed the name space: the pairing is judged at this call
+			var i int
+			fmt.Sscanf(s, "nsparam:%d", &i)
+			if i < len(x.Common().Args) {
+				return fe.ofNS(x.Common().Args[i])
+			}
 		}
 		return tfam{"opaque", v}
 	case *ssa.Phi:
@@ -175,6 +182,10 @@ func (fe *famEval) ofNS(v ssa.Value) tfam {
 		return fe.join(fs, v)
 	case *ssa.Parameter:
 		return tfam{"of", x}
+	case *ssa.Call:
+		if isCtorCall(x) {
+			return tfam{"fresh", x}
+		}
 	}
 	return tfam{"opaque", v}
 }
@@ -287,6 +298,10 @@ func (fe *famEval) ctorSummary(g *ssa.Function) string {
 				if prm, isP := ns.root.(*ssa.Parameter); isP {
 					s = "param:" + fmt.Sprint(paramIndex(g, prm))
 				}
+			case ns.kind == "of":
+				if prm, isP := ns.root.(*ssa.Parameter); isP && !isOurTmplPtr(prm.Type()) {
+					s = "nsparam:" + fmt.Sprint(paramIndex(g, prm))
+				}
 			}
 			if s == "" {
 				s = "?"
@@ -331,12 +346,35 @@ func famStr(f tfam) string {
 func checkSetNameSpacePairing(p *Program, r *Report, rule string) {
 	tsp := p.SSAPkg("template")
 	fe := &famEval{p: p, summary: map[*ssa.Function]string{}, active: map[ssa.Value]bool{}}
+	freshPairs := map[*ssa.Function]map[ssa.Value]ssa.Value{}
+	for _, f := range p.SrcFuncs() {
+		if f.Pkg == tsp {
+			freshPairs[f] = map[ssa.Value]ssa.Value{}
+		}
+	}
+	judge := func(cn, pos string, tx, ns tfam, freshPair map[ssa.Value]ssa.Value) {
+		switch {
+		case tx.kind == "opaque" || ns.kind == "opaque":
+			r.Undec(rule, cn, pos, "origin of the text template or of the name space not resolved: text from "+famStr(tx)+", name space from "+famStr(ns))
+		case tx.kind == "of" && ns == tx:
+			r.OK(rule, cn, pos, "text template and name space both from "+famStr(tx))
+		case tx.kind == "fresh" && ns.kind == "fresh":
+			if prev, ok := freshPair[tx.root]; ok && prev != ns.root {
+				r.Viol(rule, cn, pos, "one new text/template set is paired with two different name spaces", "")
+			} else {
+				freshPair[tx.root] = ns.root
+				r.OK(rule, cn, pos, "a new text/template set with a new name space")
+			}
+		default:
+			r.Viol(rule, cn, pos, "a Template pairs a text template from "+famStr(tx)+" with the name space of "+famStr(ns)+": Parse through this handle is gated by a name space other than the one that freezes the set it parses into, so an executed set can be redefined", `x1 := root.New("x"); parse; x2 := root.New("x"); execute; x1.Parse(...) succeeds and replaces the analysed "x"`)
+		}
+	}
 	for _, f := range p.SrcFuncs() {
 		if f.Pkg != tsp || f.Blocks == nil {
 			continue
 		}
 		short := strings.TrimPrefix(fnName(f), pkgTemplate+".")
-		freshPair := map[ssa.Value]ssa.Value{}
+		freshPair := freshPairs[f]
 		n := 0
 		for _, b := range f.Blocks {
 			for _, in := range b.Instrs {
@@ -370,21 +408,36 @@ func checkSetNameSpacePairing(p *Program, r *Report, rule string) {
 					ns = fe.ofNS(st.Val)
 					tx = fe.ofTemplate(fa.X)
 				}
-				switch {
-				case tx.kind == "opaque" || ns.kind == "opaque":
-					r.Undec(rule, cn, pos, "origin of the text template or of the name space not resolved: text from "+famStr(tx)+", name space from "+famStr(ns))
-				case tx.kind == "of" && ns == tx:
-					r.OK(rule, cn, pos, "text template and name space both from "+famStr(tx))
-				case tx.kind == "fresh" && ns.kind == "fresh":
-					if prev, ok := freshPair[tx.root]; ok && prev != ns.root {
-						r.Viol(rule, cn, pos, "one new text/template set is paired with two different name spaces", "")
-					} else {
-						freshPair[tx.root] = ns.root
-						r.OK(rule, cn, pos, "a new text/template set with a new name space")
+				// a helper that is handed both halves: judged at each of its call sites
+				if pt, okT := tx.root.(*ssa.Parameter); okT && tx.kind == "of" && ns.kind == "of" && tx != ns {
+					if pn, okN := ns.root.(*ssa.Parameter); okN && !isOurTmplPtr(pt.Type()) && !isOurTmplPtr(pn.Type()) {
+						ti, ni := paramIndex(f, pt), paramIndex(f, pn)
+						sites := 0
+						for _, caller := range p.SrcFuncs() {
+							if caller.Pkg != tsp {
+								continue
+							}
+							cshort := strings.TrimPrefix(fnName(caller), pkgTemplate+".")
+							for _, cb := range caller.Blocks {
+								for _, cin := range cb.Instrs {
+									call, isCall := cin.(*ssa.Call)
+									if !isCall || staticCallee(call.Common()) != f {
+										continue
+									}
+									sites++
+									ctx := fe.ofText(call.Common().Args[ti])
+									cns := fe.ofNS(call.Common().Args[ni])
+									judge(fmt.Sprintf("%s#%s@%s%d", cshort, short, fld, sites), p.Pos(call.Pos()), ctx, cns, freshPairs[caller])
+								}
+							}
+						}
+						if sites > 0 {
+							continue
+						}
 					}
-				default:
-					r.Viol(rule, cn, pos, "a Template pairs a text template from "+famStr(tx)+" with the name space of "+famStr(ns)+": Parse through this handle is gated by a name space other than the one that freezes the set it parses into, so an executed set can be redefined", `x1 := root.New("x"); parse; x2 := root.New("x"); execute; x1.Parse(...) succeeds and replaces the analysed "x"`)
 				}
+				judge(cn, pos, tx, ns, freshPair)
+				continue
 			}
 		}
 	}
